@@ -67,6 +67,7 @@ static struct {
 		 pumps, pool_items, hook_checks, growth_checks;
 } S;
 
+int start_fds = -1;
 struct cyc { struct rng r; int style; int done_items; };
 
 static void nop(void *c) { (void)c; }
@@ -245,6 +246,7 @@ static void *thread_body(void *v)
 static void run_cycle(long id, uint64_t seed)
 {
 	static int base_fd = -1, base_thr = -1, warm;
+	extern int start_fds;
 	static size_t base_heap;
 	struct targ ta = { seed, (int)(id % 3), id };
 	long i0 = tls_inits, d0 = tls_deinits;
@@ -286,6 +288,12 @@ static void run_cycle(long id, uint64_t seed)
 	}
 	S.growth_checks++;
 	if (warm < 4) {
+		/* the first cycles set the base for the heap (lazily grown tables); descriptors have a stricter base: what was open before
+		 * the library was used for the first time in this process (nothing the library opens may outlive a complete tear-down) */
+		if (warm > 0 && nfd > base_fd)
+			mon_viol("C18", "fd-leak", g_method, "cycle %ld (style %d, warm-up): %d descriptors open afterwards, %d after the first cycle", id, ta.style, nfd, base_fd);
+		if (warm == 0 && start_fds >= 0 && nfd > start_fds)
+			mon_viol("C18", "fd-leak", g_method, "first cycle of the process (style %d): %d descriptors open afterwards, %d before the library was used", ta.style, nfd, start_fds);
 		warm++;
 		base_fd = nfd; base_thr = nthr;
 		base_heap = __sanitizer_get_current_allocated_bytes ? __sanitizer_get_current_allocated_bytes() : 0;
@@ -319,9 +327,12 @@ int main(int argc, char **argv)
 
 	vt_init();
 	signal(SIGPIPE, SIG_IGN);
+	start_fds = count_dir("/proc/self/fd");
 	iv_init();
 	g_method = iv_poll_method_name();
 	iv_deinit();
+	if (count_dir("/proc/self/fd") != start_fds)
+		start_fds = -1;	/* (cannot happen; then there is no strict base) */
 	for (i = first; i < first + n; i++)
 		run_cycle(i, seed);
 	mon_printf("STAT method=%s cycles=%llu main_thread_cycles=%llu thread_with_deinit_cycles=%llu thread_exit_without_deinit_cycles=%llu fds_registered=%llu "
